@@ -45,6 +45,22 @@ def run(ctx):
         orc = orc.rstrip() 
         orc = orc[:-1] + "), dtype=np.int64)"
         cases.append(families.mkcase(f"MSH-{i}", {"x": x}, impl, orc, {"func": "additional.shape", "dtype": d, "dclass": family.dclass(d)}, rnd))
+    # in-place updates that change rank / shape / dtype of an existing array whose metadata has been read before
+    for i in range(50 * scale):
+        d = rnd.choice(["int64", "float32", "nint32", "float64"])
+        r = rnd.randint(1, 3)
+        sh = [rnd.choice([1, 2, 3]) for _ in range(r)]
+        x = ops.tensor(rnd, d, sh, "small")
+        y = ops.tensor(rnd, d, [2] + sh, "small")
+        impl = rnd.choice(["e = x.copy(); n_ = (e.ndim, e.shape, e.dtype); r_ = ndx.reshape(e, [-1], copy=False); out = e",
+                           "e = x.copy(); n_ = (e.ndim, e.shape, e.dtype); r_ = ndx.reshape(e, [1, -1, 1], copy=False); out = e",
+                           "e = x.copy(); n_ = (e.ndim, e.shape, e.dtype); e += y; out = e",
+                           "e = x.copy(); n_ = (e.ndim, e.shape, e.dtype); e *= y; out = [e, e + 1]",
+                           "e = x.copy(); n_ = (e.ndim, e.shape, e.dtype); r_ = ndx.astype(e, ndx.float64, copy=False); out = e",
+                           "e = x[...]; n_ = e.ndim; e = e[..., None]; m_ = e.ndim; e += 1; out = e"])
+        c = families.mkcase(f"MIP-{i}", {"x": x, "y": y}, impl, None, {"func": "inplace-metadata", "dtype": d, "dclass": family.dclass(d)}, rnd)
+        c["lazy_subsets"] = [{"names": ["x", "y"]}, {"names": ["x", "y"], "sigs": {"x": [None] * r, "y": [None] * (r + 1)}}, {"names": ["x"]}]
+        cases.append(c)
     family.evaluate(ctx, cases, want=("static", "oracle", "traced"))
     ctx.sample({"impl": cases[0]["impl"], "signatures": [s.get("sigs", "static") for s in cases[0]["lazy_subsets"]]})
     ctx.sample({"impl": cases[-1]["impl"], "inputs": {k: v["shape"] for k, v in cases[-1]["inputs"].items()}})
